@@ -226,7 +226,12 @@ def mulFrom (c : Cfg) (m : Nat) : Nat → Big → M Big
     | 0 => pure s
     | j + 1 => mulFrom c m j s
 
-def multiply (c : Cfg) (s : Big) (m : Nat) : M Big := mulFrom c m s.idx s
+/-- `Multiply` (as repaired: the trim loop after the do-while keeps `index_` on the highest
+non-zero word when the multiplier is zero). -/
+def multiply (c : Cfg) (s : Big) (m : Nat) : M Big := do
+  let s ← mulFrom c m s.idx s
+  let i ← trim s.words s.idx
+  pure ⟨s.words, i⟩
 
 /-- `while (index != 0U) { --index; DoubleSize::Divide(remainder, storage_[index], …); }` -/
 def divFrom (c : Cfg) (d shift : Nat) : Nat → List Nat → Nat → M (List Nat × Nat)
